@@ -4,6 +4,7 @@
 #include <photon/common/alog.h>
 #include <photon/thread/stack-allocator.h>
 #include <sys/mman.h>
+#include <sanitizer/asan_interface.h>
 #include <time.h>
 #include <sys/time.h>
 #include <vector>
@@ -67,11 +68,13 @@ public:
 static std::vector<std::pair<void*, size_t>> stack_pool;
 static void* fast_alloc(void*, size_t size) {
     for (size_t i = 0; i < stack_pool.size(); i++)
-        if (stack_pool[i].second == size) { void* p = stack_pool[i].first; stack_pool[i] = stack_pool.back(); stack_pool.pop_back(); return p; }
+        if (stack_pool[i].second == size) { void* p = stack_pool[i].first; stack_pool[i] = stack_pool.back(); stack_pool.pop_back(); ASAN_UNPOISON_MEMORY_REGION(p, size); return p; }
     void* p = mmap(nullptr, size, PROT_READ | PROT_WRITE, MAP_PRIVATE | MAP_ANONYMOUS | MAP_NORESERVE, -1, 0);
     return p == MAP_FAILED ? nullptr : p;
 }
-static void fast_dealloc(void*, void* p, size_t size) { stack_pool.push_back({p, size}); }
+// a released stack (it holds the thread struct and every frame of the finished thread) stays poisoned until it is reused:
+// any later access through a stale pointer is an ASan "use-after-poison" report
+static void fast_dealloc(void*, void* p, size_t size) { ASAN_POISON_MEMORY_REGION(p, size); stack_pool.push_back({p, size}); }
 bool use_fast_stacks = true;
 
 void init() {
